@@ -32,7 +32,7 @@ def pmap(fn, chunks, jobs):
         return pool.map(fn, chunks, chunksize=1)
 
 
-def module_replay(module, case, entry="check_case"):
+def module_replay(module, case, entry="check_case", contract=None, tags=None):
     """Source of ``module`` + footer evaluating the same postconditions on ``case``.
     The helper modules never import anything from /verif, so the text is self-contained."""
     src = inspect.getsource(module)
@@ -42,10 +42,12 @@ def module_replay(module, case, entry="check_case"):
         "    import json as _json, sys as _sys\n"
         "    _case = _json.loads(%r)\n"
         "    _viol = %s(_case)\n"
+        "    _c, _t = %r, %r\n"
+        "    _viol = [_v for _v in _viol if (_c is None or _v[0] == _c) and (_t is None or set(_t) <= set(_v[2]))]\n"
         "    for _v in _viol:\n"
         "        print('VIOLATION', _v)\n"
         "    _sys.exit(1 if _viol else 0)\n"
-    ) % (json.dumps(case), entry)
+    ) % (json.dumps(case), entry, contract, list(tags) if tags is not None else None)
     # neutralise the module's own __main__ block, if any
     src = src.replace("if __name__ == \"__main__\":", "if False:")
     return src + footer
@@ -63,3 +65,41 @@ def funsor_frame(tb_text):
 
 def short_tb():
     return traceback.format_exc()[-1500:]
+
+
+def add_failure(res, contract, case, detail, replay_fn, root_tags, extra_tags=(), cap=3):
+    """Record a failure; at most ``cap`` full records (with replay script) per (contract, root_tags) and
+    result object -- every further one is COUNTED (res.notes via cap_failures) but not stored, because a
+    systematic defect otherwise produces thousands of identical multi-kB records."""
+    key = (contract, tuple(root_tags))
+    cnt = res.__dict__.setdefault("_fail_counts", {})
+    cnt[key] = cnt.get(key, 0) + 1
+    if cnt[key] <= cap:
+        res.fail(contract, case, detail, replay_fn(), list(root_tags) + list(extra_tags))
+        res.failures[-1]["root"] = list(root_tags)
+
+
+def merge_counts(res, other):
+    a = res.__dict__.setdefault("_fail_counts", {})
+    for k, v in other.__dict__.get("_fail_counts", {}).items():
+        a[k] = a.get(k, 0) + v
+
+
+def cap_failures(res, cap=3):
+    """After merging worker results: keep ``cap`` records per (contract, root tags); state the true counts."""
+    kept, seen = [], {}
+    for f in res.failures:
+        key = (f["contract"], tuple(f.get("root", f["tags"])))
+        seen[key] = seen.get(key, 0) + 1
+        if seen[key] <= cap:
+            kept.append(f)
+    res.failures = kept
+    counts = res.__dict__.get("_fail_counts", {})
+    if counts:
+        res.bounds["failing_cases_by_contract_and_root_tags"] = {"%s %s" % (k[0], list(k[1])): v for k, v in sorted(counts.items())}
+        total = sum(counts.values())
+        if total > len(kept):
+            res.notes.append(
+                "%d failing cases in total; %d records kept (<=%d per (contract, root tags), each with a replay script); full counts in bounds.failing_cases_by_contract_and_root_tags"
+                % (total, len(kept), cap)
+            )
